@@ -555,7 +555,7 @@ impl<'de> de::Deserializer<'de> for Value {
             Value::Integer(n) => visitor.visit_i64(n),
             Value::Float(n) => visitor.visit_f64(n),
             Value::String(v) => visitor.visit_string(v),
-            Value::Datetime(v) => visitor.visit_string(v.to_string()),
+            Value::Datetime(v) => visitor.visit_map(DatetimeDeserializer { date: Some(v) }),
             Value::Array(v) => {
                 let len = v.len();
                 let mut deserializer = SeqDeserializer::new(v);
@@ -639,6 +639,38 @@ impl<'de> de::Deserializer<'de> for Value {
         bool u8 u16 u32 u64 i8 i16 i32 i64 f32 f64 char str string unit seq
         bytes byte_buf map unit_struct tuple_struct struct
         tuple ignored_any identifier
+    }
+}
+
+/// Presents a [`Datetime`] the way `toml_edit`'s deserializer does, so that `Datetime`'s own
+/// `Deserialize` impl (and `Value`'s) recognizes it
+struct DatetimeDeserializer {
+    date: Option<Datetime>,
+}
+
+impl<'de> de::MapAccess<'de> for DatetimeDeserializer {
+    type Error = crate::de::Error;
+
+    fn next_key_seed<K>(&mut self, seed: K) -> Result<Option<K::Value>, crate::de::Error>
+    where
+        K: de::DeserializeSeed<'de>,
+    {
+        if self.date.is_some() {
+            seed.deserialize(de::value::BorrowedStrDeserializer::new(datetime::FIELD))
+                .map(Some)
+        } else {
+            Ok(None)
+        }
+    }
+
+    fn next_value_seed<V>(&mut self, seed: V) -> Result<V::Value, crate::de::Error>
+    where
+        V: de::DeserializeSeed<'de>,
+    {
+        match self.date.take() {
+            Some(date) => seed.deserialize(date.to_string().into_deserializer()),
+            None => Err(de::Error::custom("value is missing")),
+        }
     }
 }
 
